@@ -50,11 +50,11 @@ def translate(ctx):
 def case_line(c):
     if c["topic"] == "empty":
         return ("empty method=%s N=%d D=%d d=%d k=%d seed=%d data=%s"
-                % (c["method"], c["N"], c["D"], c["d"], c["k"], c["seed"], sp.mat_text(c["rows"])))
+                % (c["method"], c["N"], c["D"], c["d"], c["k"], c["seed"], sp.mat_text(c["rows"]))) + sp.decoy_fields(c)
     combs = ",".join("-" if cb is None else "%d:%d:%s" % (cb[0], cb[1], sp.fr(cb[2])) for cb in c["combs"])
     return ("proj method=%s N=%d D=%d d=%d k=%d solver=dense seed=%d exact=%d nq=%d comb=%s data=%s q=%s"
             % (c["method"], c["N"], c["D"], c["d"], c["k"], c["seed"], 1 if c["exact"] else 0, len(c["q"]),
-               combs or "-", sp.mat_text(c["rows"]), sp.mat_text(c["q"]) or "-"))
+               combs or "-", sp.mat_text(c["rows"]), sp.mat_text(c["q"]) or "-") + sp.decoy_fields(c))
 
 
 def parse_case(line):
@@ -62,6 +62,7 @@ def parse_case(line):
     rows = [[Fraction(v) for v in r.split(",")] for r in f["data"].split(";")]
     c = {"topic": line.split(" ", 1)[0], "method": f["method"], "N": int(f["N"]), "D": int(f["D"]), "d": int(f["d"]),
          "k": int(f.get("k", "5")), "seed": int(f.get("seed", "1")), "rows": rows, "label": "replay"}
+    sp.parse_decoys(f, c)
     if c["topic"] == "proj":
         c["exact"] = f.get("exact") == "1"
         c["q"] = [] if f.get("q", "-") == "-" else [[Fraction(v) for v in r.split(",")] for r in f["q"].split(";")]
@@ -185,6 +186,8 @@ def subcase(c, keep):
     s["rows"] = [c["rows"][i] for i in keep]
     s["N"] = len(keep)
     s["k"] = max(3, min(c["k"], s["N"] - 1))
+    if c.get("sel"):
+        s["sel"] = [c["sel"][i] for i in keep]
     if c["topic"] == "proj":
         # keep only the queries whose combination partners survive, re-indexed
         pos = {old: new for new, old in enumerate(keep)}
@@ -255,6 +258,7 @@ def account(ctx, c, v):
     ctx.stat("gen:" + c["label"])
     ctx.stat("topic:" + c["topic"])
     ctx.stat("method:" + c["method"])
+    ctx.stat("id-range:shuffled-subset-with-decoys" if c.get("sel") else "id-range:identity")
     if c["topic"] == "proj":
         ctx.stat("queries", len(c["q"]))
         ctx.stat("queries:combinations", len([x for x in c["combs"] if x is not None]))
@@ -329,13 +333,30 @@ def gen_cases(ctx, quick):
             cases.append({"topic": "proj", "label": "five-methods", "method": m, "N": N, "D": D, "d": d, "k": k,
                           "seed": r.range(1, 10 ** 6), "rows": rows, "q": q, "combs": combs,
                           "exact": sp.is_pow2(N) and integer})
+            if r.chance(1, 2):   # NON-IDENTITY id range: shuffled subset of a larger id space, decoy samples in between
+                cases[-1]["all"], cases[-1]["sel"] = sp.with_decoys_points(r, rows)
+        # mean far from the origin compared with the spread (PCA / Random Projection: no neighbourhood graph involved):
+        # Pᵀ(x − mean) must be formed from the centred vector, Pᵀx − Pᵀmean cancels catastrophically
+        for m in ("pca", "rp"):
+            N = r.range(6, 12)
+            D = r.range(2, 4)
+            off = [r.choice([-1, 1]) * 2 ** r.range(24, 36) + r.range(-5, 5) for _ in range(D)]
+            rows = [[Fraction(o + v) for o, v in zip(off, row)] for row in sp.low_rank_points(r, N, D, D, amp=2)]
+            d = r.range(1, D)
+            q, combs = gen_queries(r, rows, D, 3)
+            q = [[rows[0][k] + v for k, v in enumerate(qq)] if cb is None else qq for qq, cb in zip(q, combs)]
+            cases.append({"topic": "proj", "label": "large-mean", "method": m, "N": N, "D": D, "d": d, "k": 5,
+                          "seed": r.range(1, 10 ** 6), "rows": rows, "q": q, "combs": combs, "exact": False})
         # every method once per round: presence / absence of a projection
         N = r.range(12, 20)
         D = 3
         rows = [[Fraction(v) for v in row] for row in sp.low_rank_points(r, N, D, D, amp=3)]
+        decoy = sp.with_decoys_points(r, rows) if rnd % 2 else None
         for m in ALL_METHODS:
             cases.append({"topic": "empty", "label": "all-20-methods", "method": m, "N": N, "D": D, "d": 2, "k": 7,
                           "seed": r.range(1, 10 ** 6), "rows": rows})
+            if decoy:
+                cases[-1]["all"], cases[-1]["sel"] = decoy
     # target dimension beyond the feature dimension (validated against N only): F-DIM-RANK probe
     for m in PROJECTING:
         N, D = 10, 3
